@@ -58,7 +58,7 @@ def layouts(tier, seed, salt):
             return False
         for ov in ovs:
             k = len(out)
-            out.append(dict(cfg, ov=ov, late=(k % 5 == 3), probe=(k % 7 == 2)))
+            out.append(dict(cfg, ov=ov, late=(k % 5 == 3), probe=(k % 7 == 2), second=(k % 11 == 5)))
         return True
     # hand-picked layouts: unaligned multi-chunk registers, padding, zero width, mixed access
     add(8, 4, 0, [{"w": 8, "acc": "rw"}, {"w": 20, "acc": "rw", "addr": 1}, {"w": 16, "acc": "r", "addr": 5},
@@ -80,6 +80,11 @@ def layouts(tier, seed, salt):
     add(7, 4, 1, [{"w": 20, "acc": "rw"}, {"w": 1, "acc": "w"}, {"w": 15, "acc": "r"}], ovs=[None, 1])
     add(24, 3, 0, [{"w": 49, "acc": "rw", "addr": 1}, {"w": 24, "acc": "rw"}], ovs=[None, 0])
     add(8, 8, 0, [{"w": 24, "acc": "rw", "addr": 201}, {"w": 8, "acc": "rw", "addr": 255}, {"w": 16, "acc": "rw", "addr": 127}], ovs=[None, 0])
+    # addresses far above 256 (10- and 16-bit address spaces), up to the very last address
+    add(8, 10, 0, [{"w": 16, "acc": "rw", "addr": 0x102}, {"w": 8, "acc": "r", "addr": 0x204}, {"w": 24, "acc": "rw", "addr": 0x3fd}],
+        ovs=[None, 0])
+    add(16, 16, 0, [{"w": 32, "acc": "rw", "addr": 0xfffe}, {"w": 16, "acc": "rw", "addr": 0x8000}, {"w": 1, "acc": "w", "addr": 0x1234}],
+        ovs=[None, 1])
     if max_chunks >= 6:
         add(8, 6, 0, [{"w": 48, "acc": "rw", "addr": 5}, {"w": 40, "acc": "rw", "addr": 13}, {"w": 8, "acc": "rw", "addr": 4}])
     want = 90 if tier == "quick" else 1000
@@ -118,6 +123,11 @@ def maker(cfg):
         if late:
             # the memory map is still extensible: a register added after the multiplexer object was created
             build_map(cfg, mm=mm, regs=regs, start=len(cfg["regs"]) - late)
+        if cfg.get("second"):
+            # the multiplexer has already been elaborated once (converted, simulated); the checked netlist is the
+            # second elaboration of the same object
+            from amaranth.hdl import Fragment
+            Fragment.get(mux, None)
         return Harness(mux, flat_ports(mux, *regs), mux=mux, regs=regs, mm=mm)
     return make
 
